@@ -440,6 +440,23 @@ def failed_monitors(case, obs, ans):
     return failed
 
 
+def _acceptor_noact_limit(case, obs, base_ans):
+    """known incompleteness of the run-model acceptor (Driver/Run.lean, not owned by C19; reported to its builder): with
+    a parallel runner two action-less (group) tasks in flight at the same time may have their results processed in
+    either order, but their start / end marks are not observable and the acceptor's search takes those completions
+    eagerly in worker order.  Recognised narrowly: the next implementation event and every event the model could emit
+    are `success` reports of action-less tasks."""
+    m = case.get('model') or runlib.expand(case)
+    na = m['noAct']
+    k = base_ans.get('matched') or 0
+    nxt = obs['trace'][k:k + 1]
+    exp = [e for alt in (base_ans.get('expected') or []) for e in alt]
+
+    def ok(e):
+        return e[0] == 'success' and isinstance(e[1], int) and e[1] < len(na) and na[e[1]]
+    return case['runner'] != 'serial' and bool(nxt) and ok(nxt[0]) and bool(exp) and all(ok(e) for e in exp)
+
+
 def judge(case, obs, ans, base_ans, st, shrink_left):
     """decision rules for one (case, observation); returns seconds spent shrinking"""
     st.traces += 1
@@ -498,8 +515,10 @@ def judge(case, obs, ans, base_ans, st, shrink_left):
     if base_ans is not None and 'error' not in base_ans:
         if base_ans.get('skipped'):
             st.count('model_search_skipped')
-        st.count('model:accepted' if base_ans.get('accepted') else 'model:rejected')
-        if not base_ans.get('accepted') and not base_ans.get('skipped'):
+        limit = (not base_ans.get('accepted')) and _acceptor_noact_limit(case, obs, base_ans)
+        st.count('model:accepted' if base_ans.get('accepted') else
+                 'model:acceptor_limit(completion order of action-less tasks)' if limit else 'model:rejected')
+        if not base_ans.get('accepted') and not base_ans.get('skipped') and not limit:
             w = make_witness(case, obs, ans)
             w['matched'] = base_ans.get('matched')
             w['expected'] = base_ans.get('expected')
@@ -687,9 +706,9 @@ def thread_scope():
 
 def plan(ctx, scale=1.0):
     quick = ctx.tier == 'quick'
-    n_serial = int((260 if quick else 4000) * ctx.boost * scale)
-    n_thread = int((160 if quick else 3000) * ctx.boost * scale)
-    n_proc = int((10 if quick else 100) * min(ctx.boost, 2) * scale)
+    n_serial = int((260 if quick else 2500) * ctx.boost * scale)
+    n_thread = int((160 if quick else 1800) * ctx.boost * scale)
+    n_proc = int((10 if quick else 60) * min(ctx.boost, 2) * scale)
     rng = ctx.rng
     gen = []
     for i in range(n_serial):
@@ -802,7 +821,7 @@ def replay(ctx, data):
         print('FAILED monitors:', wit['failed_monitors'], wit['detail'])
         return False
     base = runlib.ask_model([(case, obs)])[0]
-    acc = base.get('accepted') or base.get('skipped') or 'error' in base
+    acc = base.get('accepted') or base.get('skipped') or 'error' in base or _acceptor_noact_limit(case, obs, base)
     print('reporter output equals the model:', same, '  run model accepts the trace:', bool(acc))
     if data.get('failed') == 'correspondence' and not (same and acc):
         return False
